@@ -211,6 +211,18 @@ def linger_family(rng, n):
     return out
 
 
+def linger_signal_family(rng, n):
+    """the function has RETURNED but its process stays (a non-daemon thread, far longer than the scenario lasts); only then
+    is terminate()/kill() requested from another task: the request must get through (the event loop is not blocked while
+    the handle waits for the process), the handle completes with the function's value and the signal's exit code"""
+    out = []
+    for i in range(n):
+        clog, init = CFGS[i % 4]
+        how = ['terminate', 'kill'][i % 2]
+        out.append(S('return', 6, clog, init, sig(how, 'delay', 0.4), dur=0.02, linger=45.0, timeout=25))
+    return out
+
+
 def storm_family(rng, reps=1):
     """many awaiters of the same handle: a new task awaits it in every loop iteration while the function runs and the
     process exits, one when the process sentinel fires, some right after the first result, one much later"""
@@ -235,6 +247,7 @@ def gen_scenarios(rng, tier: str) -> list[dict]:
         scn += race_family(rng, [-0.01, 0.0, 0.004, 0.01])                    # 12
         scn += logging_family(rng, 4)                                         # 5
         scn += linger_family(rng, 2)                                          # 2
+        scn += linger_signal_family(rng, 2)                                   # 2
         scn += storm_family(rng)                                              # 3: return, raise, killed
     else:
         scn = plain_family(rng, reps=3)                                       # 60
@@ -244,6 +257,7 @@ def gen_scenarios(rng, tier: str) -> list[dict]:
         scn += race_family(rng, [(-0.02 + i * 0.0015) for i in range(0, 60)]) # 180
         scn += logging_family(rng, 120)                                       # 160
         scn += linger_family(rng, 8)
+        scn += linger_signal_family(rng, 8)
         scn += storm_family(rng, reps=8)                                      # 40
     return scn
 
